@@ -68,7 +68,7 @@ pub fn parts_of(_t: &str) -> Vec<Vec<(char, Vec<u8>)>> {
     vec![]
 }
 
-const LITS: &[&str] = &["/", "a", "ab", "abc", "b", ".", "-", "é", "ée", "日", "è", "早", "文", "/x", "x.y", "\\{", "\\}", "\\(", "\\)", "\\\\", "/a/", "//", "m", "/m/", "/a", "/b"];
+const LITS: &[&str] = &["/", "a", "ab", "abc", "b", ".", "-", "é", "ée", "日", "è", "早", "文", "/x", "x.y", "\\{", "\\}", "\\(", "\\)", "\\\\", "/a/", "//", "m", "/m/", "/a", "/b", "a ", " ", "\t"];
 const NAMES: &[&str] = &["a", "b", "id", "id2", "w", "v", "a-b", "template", "inserted", "conflicts", "constraint"];
 const CONS: &[&str] = &["alpha", "nota", "even", "u8", "hasslash", "bool"];
 
